@@ -1,7 +1,7 @@
 (* C14/ModelHeader.v — dot/types/header.go: Header.Hash() with its cache; definitions only.
    A header is its value (of wire type ModelTypes.header) plus the unexported `hash` field;
    the zero hash means "not computed yet".  Assigning to a field leaves the cache alone. *)
-From Common Require Import Bytes Blake2b.
+From Common Require Import Bytes Outcome Blake2b.
 From C14 Require Import ModelScale ModelTypes.
 
 Record hdr := mk_hdr { hval : val; hcache : list byte }.
@@ -68,4 +68,20 @@ Definition just_has_digest_items (v : val) : bool :=
   match v with
   | VS [_; _; VL hs] => existsb has_digest_items hs
   | _ => false
+  end.
+
+(* ---- decoding what the network sends (the reference encoding) into the generic types ----
+   scale.Unmarshal into generic.Header / the client's DecodeJustification: the digest is decoded
+   into runtime.Digest{Logs []DigestItem} with `DigestItem any`; pkg/scale dereferences a nil
+   pointer on the first item (same finding, same guard).  Without digest items the value comes
+   back.  (Input that is not a reference encoding: no claim, modelled as an error.) *)
+Definition decode_generic_header (bs : list byte) : outcome val :=
+  match decode_all prim_header bs with
+  | Some v => if has_digest_items v then Panic else Ok v
+  | None => Err 1
+  end.
+Definition decode_generic_just (bs : list byte) : outcome val :=
+  match decode_all prim_justification bs with
+  | Some v => if just_has_digest_items v then Panic else Ok v
+  | None => Err 1
   end.
